@@ -528,7 +528,12 @@ fn c26_case(c: &NameCase) -> CaseResult {
             }
             any_fs_change = true;
             let name_for_sig = if matches!(op, NameOp::Copy | NameOp::Rename | NameOp::Transfer(false)) { &odecoded } else { &decoded };
-            let class = name_class(name_for_sig);
+            // a rename or transfer involves two names: the database's current one and the new
+            // one; either can be the unvalidated name that causes the damage
+            let class = match op {
+                NameOp::Rename | NameOp::Transfer(false) if name_class(&decoded) != "plain" => name_class(&decoded),
+                _ => name_class(name_for_sig),
+            };
             let transfer_target = matches!(op, NameOp::Transfer(_)) && (k.starts_with(&format!("{data_rel}/{u2}/")) && !protected.contains(k));
             if !k.starts_with(&own_prefix) && *k != format!("{data_rel}/{u1}/") && !transfer_target {
                 let whose = if k.starts_with(&format!("{data_rel}/{u2}/")) { "another user's directory" } else if k.starts_with(&format!("{data_rel}/")) { "the data directory outside the owner's directory" } else { "a path outside the data directory" };
@@ -630,7 +635,7 @@ fn c26_case(c: &NameCase) -> CaseResult {
             types_before = types_now;
         }
         if !r.ok() && changed.iter().any(|k| !is_server_file(k, &data_rel) && *k != format!("{data_rel}/")) {
-            let name_for_sig = if matches!(op, NameOp::Copy | NameOp::Rename) { &odecoded } else { &decoded };
+            let name_for_sig = if matches!(op, NameOp::Copy | NameOp::Rename | NameOp::Transfer(false)) && !(matches!(op, NameOp::Rename | NameOp::Transfer(false)) && name_class(&decoded) != "plain") { &odecoded } else { &decoded };
             return Err(Fail::new(
                 confinement_sig(name_class(name_for_sig), "rejected request changed the file system"),
                 format!("{changed:?}\n{}\nname {decoded:?} other {odecoded:?}", trace.join("\n")),
